@@ -51,6 +51,20 @@ use std::collections::{BTreeMap, BTreeSet, HashMap};
 use std::time::{Duration, Instant};
 
 const NCOLS: usize = 2;
+/// NULL in the harness's i64 images / scripts (`Value::Null` on the engine side, `N` on the wire); never a pool value
+const NULLV: i64 = i64::MIN + 1;
+/// in the value list of an insert: the column is left out of the map (the engine stores NULL); `N` for the model
+const OMITV: i64 = i64::MIN + 2;
+
+fn vtok(x: i64) -> String {
+    if x == NULLV || x == OMITV { "N".into() } else { x.to_string() }
+}
+fn vreal(x: i64) -> Value {
+    if x == NULLV || x == OMITV { Value::Null } else { Value::Int(x) }
+}
+fn vnorm(x: i64) -> i64 {
+    if x == OMITV { NULLV } else { x }
+}
 
 #[derive(Clone, Debug, PartialEq)]
 enum Cond {
@@ -77,15 +91,15 @@ impl Cond {
         match self {
             Cond::All => "T".into(),
             Cond::Id(i) => format!("I:{i}"),
-            Cond::Eq(c, v) => format!("E:{c}:{v}"),
-            Cond::Ne(c, v) => format!("N:{c}:{v}"),
+            Cond::Eq(c, v) => format!("E:{c}:{}", vtok(*v)),
+            Cond::Ne(c, v) => format!("N:{c}:{}", vtok(*v)),
             // prefix notation, `/`-separated (no parentheses needed)
             Cond::And(a, b) => format!("A/{}/{}", a.tok(), b.tok()),
             Cond::Or(a, b) => format!("O/{}/{}", a.tok(), b.tok()),
-            Cond::Lt(c, v) => format!("L:{c}:{v}"),
-            Cond::Le(c, v) => format!("LE:{c}:{v}"),
-            Cond::Gt(c, v) => format!("G:{c}:{v}"),
-            Cond::Ge(c, v) => format!("GE:{c}:{v}"),
+            Cond::Lt(c, v) => format!("L:{c}:{}", vtok(*v)),
+            Cond::Le(c, v) => format!("LE:{c}:{}", vtok(*v)),
+            Cond::Gt(c, v) => format!("G:{c}:{}", vtok(*v)),
+            Cond::Ge(c, v) => format!("GE:{c}:{}", vtok(*v)),
         }
     }
     fn real(&self) -> Condition {
@@ -93,14 +107,14 @@ impl Cond {
         match self {
             Cond::All => Condition::True,
             Cond::Id(i) => Condition::Eq("_id".into(), Value::Int(*i as i64)),
-            Cond::Eq(c, v) => Condition::Eq(col(c), Value::Int(*v)),
-            Cond::Ne(c, v) => Condition::Ne(col(c), Value::Int(*v)),
+            Cond::Eq(c, v) => Condition::Eq(col(c), vreal(*v)),
+            Cond::Ne(c, v) => Condition::Ne(col(c), vreal(*v)),
             Cond::And(a, b) => a.real().and(b.real()),
             Cond::Or(a, b) => a.real().or(b.real()),
-            Cond::Lt(c, v) => Condition::Lt(col(c), Value::Int(*v)),
-            Cond::Le(c, v) => Condition::Le(col(c), Value::Int(*v)),
-            Cond::Gt(c, v) => Condition::Gt(col(c), Value::Int(*v)),
-            Cond::Ge(c, v) => Condition::Ge(col(c), Value::Int(*v)),
+            Cond::Lt(c, v) => Condition::Lt(col(c), vreal(*v)),
+            Cond::Le(c, v) => Condition::Le(col(c), vreal(*v)),
+            Cond::Gt(c, v) => Condition::Gt(col(c), vreal(*v)),
+            Cond::Ge(c, v) => Condition::Ge(col(c), vreal(*v)),
         }
     }
     /// reference evaluation (harness side) on a row of the full-scan image
@@ -113,10 +127,11 @@ impl Cond {
             Cond::Ne(c, v) => g(c).is_none_or(|x| x != *v),
             Cond::And(a, b) => a.holds(id, vals) && b.holds(id, vals),
             Cond::Or(a, b) => a.holds(id, vals) || b.holds(id, vals),
-            Cond::Lt(c, v) => g(c).is_some_and(|x| x < *v),
-            Cond::Le(c, v) => g(c).is_some_and(|x| x <= *v),
-            Cond::Gt(c, v) => g(c).is_some_and(|x| x > *v),
-            Cond::Ge(c, v) => g(c).is_some_and(|x| x >= *v),
+            // an ordering comparison with NULL on either side is false
+            Cond::Lt(c, v) => g(c).is_some_and(|x| x != NULLV && *v != NULLV && x < *v),
+            Cond::Le(c, v) => g(c).is_some_and(|x| x != NULLV && *v != NULLV && x <= *v),
+            Cond::Gt(c, v) => g(c).is_some_and(|x| x != NULLV && *v != NULLV && x > *v),
+            Cond::Ge(c, v) => g(c).is_some_and(|x| x != NULLV && *v != NULLV && x >= *v),
         }
     }
 }
@@ -137,6 +152,8 @@ impl Cond {
 #[derive(Clone, Debug, PartialEq)]
 enum Op {
     CreateTable,
+    /// a table whose listed columns are `.nullable()`
+    CreateTableN(Vec<usize>),
     Begin(usize),
     Commit(usize),
     Rollback(usize),
@@ -157,18 +174,20 @@ enum Op {
     Sweep,
 }
 
+/// value list of an insert: one value per column in schema order; a list shorter than the schema leaves the
+/// remaining columns out of the map, which is NULL (`N`) for the model
 fn vals_tok(v: &[i64]) -> String {
-    if v.is_empty() {
-        "-".into()
-    } else {
-        v.iter().map(|x| x.to_string()).collect::<Vec<_>>().join(",")
+    let mut t: Vec<String> = v.iter().map(|x| vtok(*x)).collect();
+    while t.len() < NCOLS {
+        t.push("N".into());
     }
+    t.join(",")
 }
 fn upd_tok(u: &[(usize, i64)]) -> String {
     if u.is_empty() {
         "-".into()
     } else {
-        u.iter().map(|(c, v)| format!("{c}={v}")).collect::<Vec<_>>().join(",")
+        u.iter().map(|(c, v)| format!("{c}={}", vtok(*v))).collect::<Vec<_>>().join(",")
     }
 }
 
@@ -180,6 +199,7 @@ impl Op {
     fn line(&self, tx: &dyn Fn(usize) -> String) -> String {
         match self {
             Op::CreateTable => format!("create_table {NCOLS}"),
+            Op::CreateTableN(nl) => format!("create_table {NCOLS} {}", World::nats(nl)),
             Op::Begin(_) => "begin".into(),
             Op::Commit(h) => format!("commit {}", tx(*h)),
             Op::Rollback(h) => format!("rollback {}", tx(*h)),
@@ -202,7 +222,7 @@ impl Op {
     }
     fn site(&self) -> &'static str {
         match self {
-            Op::CreateTable => "create_table",
+            Op::CreateTable | Op::CreateTableN(_) => "create_table",
             Op::Begin(_) => "begin_transaction",
             Op::Commit(_) => "commit",
             Op::Rollback(_) => "rollback",
@@ -231,6 +251,8 @@ struct Cfg {
     tx_secs: u64,
     /// rows hold values of `pool(cfg)`: negative numbers and both ends of i64 instead of 0..=5
     wide: bool,
+    /// the script has nullable columns: NULL is a value of the pool (last entry), swept like every other value
+    nulls: bool,
 }
 
 fn err_class(e: &RelationalError) -> String {
@@ -291,6 +313,8 @@ struct Outcome {
     disagreements: Vec<(String, J, String, String)>,
     hits: Vec<String>,
     compared: BTreeMap<String, u64>,
+    /// high-frequency distribution counters (reported with `hit_n`)
+    counts: BTreeMap<&'static str, u64>,
     nontrivial: bool,
     discarded: bool,
     steps_done: usize,
@@ -334,7 +358,7 @@ fn rows_tok(rows: &[(u64, Vec<i64>)]) -> String {
         "-".into()
     } else {
         rows.iter()
-            .map(|(id, v)| format!("{id}:{}", v.iter().map(|x| x.to_string()).collect::<Vec<_>>().join(".")))
+            .map(|(id, v)| format!("{id}:{}", v.iter().map(|x| vtok(*x)).collect::<Vec<_>>().join(".")))
             .collect::<Vec<_>>()
             .join(";")
     }
@@ -380,7 +404,7 @@ impl World {
                     (0..NCOLS)
                         .map(|c| match r.get(&format!("c{c}")) {
                             Some(Value::Int(i)) => *i,
-                            _ => i64::MIN,
+                            _ => NULLV,
                         })
                         .collect(),
                 )
@@ -449,15 +473,20 @@ impl World {
             Ok(()) => "ok".to_string(),
             Err(e) => format!("err {}", err_class(&e)),
         };
+        // OMITV: the column is left out of the map; NULLV: an explicit `Value::Null`
         let row = |v: &Vec<i64>| -> HashMap<String, Value> {
-            v.iter().enumerate().map(|(c, x)| (format!("c{c}"), Value::Int(*x))).collect()
+            v.iter().enumerate().filter(|(_, x)| **x != OMITV).map(|(c, x)| (format!("c{c}"), vreal(*x))).collect()
         };
         let upd = |u: &Vec<(usize, i64)>| -> HashMap<String, Value> {
-            u.iter().map(|(c, x)| (format!("c{c}"), Value::Int(*x))).collect()
+            u.iter().map(|(c, x)| (format!("c{c}"), vreal(*x))).collect()
         };
         match op {
-            Op::CreateTable => {
-                let schema = Schema::new((0..NCOLS).map(|c| Column::new(format!("c{c}"), ColumnType::Int)).collect());
+            Op::CreateTable | Op::CreateTableN(_) => {
+                let nl: Vec<usize> = if let Op::CreateTableN(nl) = op { nl.clone() } else { vec![] };
+                let schema = Schema::new((0..NCOLS).map(|c| {
+                    let col = Column::new(format!("c{c}"), ColumnType::Int);
+                    if nl.contains(&c) { col.nullable() } else { col }
+                }).collect());
                 let t = self.ntables;
                 match self.eng.create_table(&Self::tname(t), schema) {
                     Ok(()) => {
@@ -513,10 +542,11 @@ impl World {
 const P6: &[i64] = &[0, 1, 2, 3, 4, 5];
 
 fn pool(cfg: Cfg) -> &'static [i64] {
-    if cfg.wide {
-        &[i64::MIN, -3, -1, 0, 2, i64::MAX]
-    } else {
-        P6
+    match (cfg.wide, cfg.nulls) {
+        (true, false) => &[i64::MIN, -3, -1, 0, 2, i64::MAX],
+        (true, true) => &[i64::MIN, -3, -1, 0, 2, i64::MAX, NULLV],
+        (false, false) => P6,
+        (false, true) => &[0, 1, 2, 3, 4, 5, NULLV],
     }
 }
 
@@ -571,7 +601,7 @@ fn exec_script(ops: &[Op], cfg: Cfg, mut model: Option<&mut Model>) -> Outcome {
             return out;
         }
     }
-    let script_json = || json!({"cfg": {"lock_timeout_secs": cfg.lock_secs, "transaction_timeout_secs": cfg.tx_secs, "wide_values": cfg.wide},
+    let script_json = || json!({"cfg": {"lock_timeout_secs": cfg.lock_secs, "transaction_timeout_secs": cfg.tx_secs, "wide_values": cfg.wide, "nullable_columns": cfg.nulls},
                                  "script": ops.iter().map(|o| o.show()).collect::<Vec<_>>()});
     let cmp = |out: &mut Outcome, stream: &str, step: usize, what: &str, imp: &str, mdl: &str| -> bool {
         *out.compared.entry(stream.to_string()).or_insert(0) += 1;
@@ -639,6 +669,32 @@ fn exec_script(ops: &[Op], cfg: Cfg, mut model: Option<&mut Model>) -> Outcome {
             }
         }
         let ok = r_real.starts_with("ok") || r_real.starts_with("begin") || r_real.starts_with("rows");
+        if ok {
+            match op {
+                Op::TxInsert(_, _, v) | Op::Insert(_, v) => {
+                    if v.contains(&OMITV) {
+                        out.hit("null_stored:omitted");
+                    }
+                    if v.contains(&NULLV) {
+                        out.hit("null_stored:explicit");
+                    }
+                },
+                Op::TxUpdate(_, _, c, u) | Op::Update(_, c, u) => {
+                    if r_real != "ok 0" && u.iter().any(|p| p.1 == NULLV) {
+                        out.hit("null_assigned_by_update");
+                    }
+                    if c.tok().contains(":N") {
+                        out.hit("null_compared_in_condition");
+                    }
+                },
+                Op::TxDelete(_, _, c) | Op::Delete(_, c) | Op::TxSelect(_, _, c) => {
+                    if c.tok().contains(":N") {
+                        out.hit("null_compared_in_condition");
+                    }
+                },
+                _ => {},
+            }
+        }
         out.hit(&format!("op:{site}:{}", if ok { "ok".to_string() } else { r_real.replace("err ", "") }));
         if ok {
             if let Op::CreateIndex(t, c) | Op::CreateBtree(t, c) = op {
@@ -1081,7 +1137,7 @@ fn exec_script(ops: &[Op], cfg: Cfg, mut model: Option<&mut Model>) -> Outcome {
                     None => (t, usize::MAX, false),
                 };
                 if matches!(c, Cond::And(..)) {
-                    out.hit(if key.2 { "and_condition_served_by_btree_index" } else { "and_condition_served_by_hash_index" });
+                    *out.counts.entry(if key.2 { "and_condition_served_by_btree_index" } else { "and_condition_served_by_hash_index" }).or_insert(0) += 1;
                 }
                 let real = w.select_rows(t, &c);
                 let want: Vec<(u64, Vec<i64>)> = after[t].iter().filter(|(id, v)| c.holds(**id, v)).map(|(k, v)| (*k, v.clone())).collect();
@@ -1135,7 +1191,11 @@ fn exec_script(ops: &[Op], cfg: Cfg, mut model: Option<&mut Model>) -> Outcome {
                                  format!("select t{t} {} through the index = [{}], full scan + filter = [{}]{extra}", c.tok(), rows_tok(got), rows_tok(&want)), step);
                     }
                 }
-                if full {
+                // model comparison of the same answers: simple conditions on every `full` step, compound ones at the
+                // points where an index answer is most at risk (end of a transaction, explicit sweep, end of script)
+                let ask_model = full && (!matches!(c, Cond::And(..))
+                    || matches!(op, Op::Commit(_) | Op::Rollback(_) | Op::Sweep) || step + 1 == ops.len());
+                if ask_model {
                     if let Some(m) = mdl!() {
                         let real_s = match &real {
                             Ok(r) => format!("rows {}", rows_tok(r)),
@@ -1320,7 +1380,7 @@ impl Sim {
     fn apply(&mut self, op: &Op) {
         let open = |s: &Sim, h: &usize| s.undo.contains_key(h);
         match op {
-            Op::CreateTable => {
+            Op::CreateTable | Op::CreateTableN(_) => {
                 self.rows.push(BTreeMap::new());
                 self.next_id.push(1);
                 self.indexed.push(BTreeSet::new());
@@ -1349,7 +1409,7 @@ impl Sim {
                 }
                 let id = self.next_id[*t];
                 self.next_id[*t] += 1;
-                self.write(h, (*t, id), Some(v.clone()));
+                self.write(h, (*t, id), Some(v.iter().map(|x| vnorm(*x)).collect()));
             },
             Op::TxUpdate(_, t, c, u) | Op::Update(t, c, u) => {
                 let h = if let Op::TxUpdate(h, ..) = op { Some(*h) } else { None };
@@ -1418,15 +1478,47 @@ impl Sim {
     }
 }
 
+/// NULL goes to nullable columns (explicitly or by leaving the column out); a NULL the generator drew for a column
+/// that refuses it is kept one time in eight (the statement must then fail as a whole with NullNotAllowed)
+fn gen_vals_n(rng: &mut Rng, nullable: &[usize], pool: &[i64]) -> Vec<i64> {
+    let mut v = gen_vals(rng, pool);
+    for (c, x) in v.iter_mut().enumerate() {
+        if *x == NULLV {
+            if nullable.contains(&c) {
+                if rng.chance(1, 2) {
+                    *x = OMITV;
+                }
+            } else if !rng.chance(1, 8) {
+                *x = pool[0];
+            }
+        }
+    }
+    v
+}
+fn gen_upd_n(rng: &mut Rng, nullable: &[usize], pool: &[i64]) -> Vec<(usize, i64)> {
+    let mut u = gen_upd(rng, pool);
+    for (c, x) in u.iter_mut() {
+        if *x == NULLV && !nullable.contains(c) && !rng.chance(1, 8) {
+            *x = pool[0];
+        }
+    }
+    u
+}
+
 /// random script: setup (tables, indexes, committed rows), 2-4 interleaved transactions, all ended at the end.
 /// One update in four is aimed (`Sim::same_value_update`) at writing an indexed column back with its current value.
 fn gen_script(rng: &mut Rng, len: usize, ddl: bool, pool: &[i64]) -> Vec<Op> {
+    // `pool` ends with NULLV when the script has nullable columns
+    let nulls = pool.last() == Some(&NULLV);
     let mut sim = Sim::default();
     let mut synced = 0usize;
-    let mut ops = vec![Op::CreateTable];
     let nt = if rng.chance(1, 3) { 2 } else { 1 };
-    if nt == 2 {
-        ops.push(Op::CreateTable);
+    let mut ops = vec![];
+    let mut nullable: Vec<Vec<usize>> = vec![];
+    for _ in 0..nt {
+        let nl: Vec<usize> = if nulls { (0..NCOLS).filter(|_| rng.chance(2, 3)).collect() } else { vec![] };
+        ops.push(if nl.is_empty() { Op::CreateTable } else { Op::CreateTableN(nl.clone()) });
+        nullable.push(nl);
     }
     let mut approx_rows = vec![0u64; nt];
     for t in 0..nt {
@@ -1439,7 +1531,7 @@ fn gen_script(rng: &mut Rng, len: usize, ddl: bool, pool: &[i64]) -> Vec<Op> {
             }
         }
         for _ in 0..rng.range(1, 4) {
-            ops.push(Op::Insert(t, gen_vals(rng, pool)));
+            ops.push(Op::Insert(t, gen_vals_n(rng, nullable.get(t).map_or(&[][..], |v| &v[..]), pool)));
             approx_rows[t] += 1;
         }
     }
@@ -1466,11 +1558,11 @@ fn gen_script(rng: &mut Rng, len: usize, ddl: bool, pool: &[i64]) -> Vec<Op> {
                 let aimed = if rng.chance(1, 4) { sim.same_value_update(rng, Some(h), t, pool) } else { None };
                 match aimed {
                     Some((c, u)) => ops.push(Op::TxUpdate(h, t, c, u)),
-                    None => ops.push(Op::TxUpdate(h, t, gen_cond(rng, approx_rows[t], pool), gen_upd(rng, pool))),
+                    None => ops.push(Op::TxUpdate(h, t, gen_cond(rng, approx_rows[t], pool), gen_upd_n(rng, nullable.get(t).map_or(&[][..], |v| &v[..]), pool))),
                 }
             },
             27..=41 => {
-                ops.push(Op::TxInsert(h, t, gen_vals(rng, pool)));
+                ops.push(Op::TxInsert(h, t, gen_vals_n(rng, nullable.get(t).map_or(&[][..], |v| &v[..]), pool)));
                 approx_rows[t] += 1;
             },
             42..=52 => ops.push(Op::TxDelete(h, t, gen_cond(rng, approx_rows[t], pool))),
@@ -1485,14 +1577,14 @@ fn gen_script(rng: &mut Rng, len: usize, ddl: bool, pool: &[i64]) -> Vec<Op> {
                 finished.push(h);
             },
             73..=77 => {
-                ops.push(Op::Insert(t, gen_vals(rng, pool)));
+                ops.push(Op::Insert(t, gen_vals_n(rng, nullable.get(t).map_or(&[][..], |v| &v[..]), pool)));
                 approx_rows[t] += 1;
             },
             78..=82 => {
                 let aimed = if rng.chance(1, 4) { sim.same_value_update(rng, None, t, pool) } else { None };
                 match aimed {
                     Some((c, u)) => ops.push(Op::Update(t, c, u)),
-                    None => ops.push(Op::Update(t, gen_cond(rng, approx_rows[t], pool), gen_upd(rng, pool))),
+                    None => ops.push(Op::Update(t, gen_cond(rng, approx_rows[t], pool), gen_upd_n(rng, nullable.get(t).map_or(&[][..], |v| &v[..]), pool))),
                 }
             },
             83..=85 => ops.push(Op::Delete(t, gen_cond(rng, approx_rows[t], pool))),
@@ -1515,8 +1607,8 @@ fn gen_script(rng: &mut Rng, len: usize, ddl: bool, pool: &[i64]) -> Vec<Op> {
                 ops.push(match rng.below(6) {
                     0 => Op::Commit(g),
                     1 => Op::Rollback(g),
-                    2 => Op::TxInsert(g, t, gen_vals(rng, pool)),
-                    3 => Op::TxUpdate(g, t, Cond::All, gen_upd(rng, pool)),
+                    2 => Op::TxInsert(g, t, gen_vals_n(rng, nullable.get(t).map_or(&[][..], |v| &v[..]), pool)),
+                    3 => Op::TxUpdate(g, t, Cond::All, gen_upd_n(rng, nullable.get(t).map_or(&[][..], |v| &v[..]), pool)),
                     4 => Op::TxSelect(g, t, gen_cond(rng, approx_rows[t], pool)),
                     _ => Op::TxDelete(g, t, Cond::All),
                 });
@@ -1524,12 +1616,12 @@ fn gen_script(rng: &mut Rng, len: usize, ddl: bool, pool: &[i64]) -> Vec<Op> {
             // statements that must fail as a whole and change nothing: unknown table, unknown column, a row without
             // one of its (non-nullable) columns — transactional and non-transactional
             96 => ops.push(match rng.below(6) {
-                0 => Op::TxUpdate(h, 9, Cond::All, gen_upd(rng, pool)),
-                1 => Op::TxInsert(h, 9, gen_vals(rng, pool)),
+                0 => Op::TxUpdate(h, 9, Cond::All, gen_upd_n(rng, nullable.get(t).map_or(&[][..], |v| &v[..]), pool)),
+                1 => Op::TxInsert(h, 9, gen_vals_n(rng, nullable.get(t).map_or(&[][..], |v| &v[..]), pool)),
                 2 => Op::TxDelete(h, 9, gen_cond(rng, 3, pool)),
-                3 => Op::Update(9, Cond::All, gen_upd(rng, pool)),
+                3 => Op::Update(9, Cond::All, gen_upd_n(rng, nullable.get(t).map_or(&[][..], |v| &v[..]), pool)),
                 4 => Op::Delete(9, Cond::All),
-                _ => Op::Insert(9, gen_vals(rng, pool)),
+                _ => Op::Insert(9, gen_vals_n(rng, nullable.get(t).map_or(&[][..], |v| &v[..]), pool)),
             }),
             97 => ops.push(match rng.below(5) {
                 0 | 1 => Op::TxUpdate(h, t, Cond::All, vec![(7, 1)]),
@@ -1552,9 +1644,9 @@ fn gen_script(rng: &mut Rng, len: usize, ddl: bool, pool: &[i64]) -> Vec<Op> {
 /// hand-written scenarios (run first): the suspected holes and the basic contract
 fn directed() -> Vec<(&'static str, Cfg, Vec<Op>)> {
     use Op::*;
-    let long = Cfg { lock_secs: 30, tx_secs: 60, wide: false };
-    let short = Cfg { lock_secs: 1, tx_secs: 60, wide: false };
-    let short_tx = Cfg { lock_secs: 1, tx_secs: 1, wide: false };
+    let long = Cfg { lock_secs: 30, tx_secs: 60, wide: false, nulls: false };
+    let short = Cfg { lock_secs: 1, tx_secs: 60, wide: false, nulls: false };
+    let short_tx = Cfg { lock_secs: 1, tx_secs: 1, wide: false, nulls: false };
     let base = |idx: bool| {
         let mut v = vec![CreateTable];
         if idx {
@@ -1636,7 +1728,7 @@ fn directed() -> Vec<(&'static str, Cfg, Vec<Op>)> {
               TxSelect(1, 0, Cond::All), Sweep, Rollback(0), Commit(1), Sweep]);
     out.push(("failed_statements_change_nothing", long, s));
     // values outside 0..5: negative numbers and both ends of i64 in hash buckets and b-tree keys
-    let wide = Cfg { lock_secs: 30, tx_secs: 60, wide: true };
+    let wide = Cfg { lock_secs: 30, tx_secs: 60, wide: true, nulls: false };
     let mut s = vec![CreateTable, CreateIndex(0, 0), CreateBtree(0, 0), CreateBtree(0, 1),
                      Insert(0, vec![i64::MIN, i64::MAX]), Insert(0, vec![-1, 0]), Insert(0, vec![0, -1]), Insert(0, vec![i64::MAX, i64::MIN]),
                      Insert(0, vec![-3, 2]), Sweep];
@@ -1644,6 +1736,20 @@ fn directed() -> Vec<(&'static str, Cfg, Vec<Op>)> {
               TxInsert(0, 0, vec![i64::MIN, i64::MIN]), TxUpdate(0, 0, Cond::Eq(0, i64::MAX), vec![(1, -3)]), Sweep, Rollback(0), Sweep,
               Begin(1), TxUpdate(1, 0, Cond::Id(1), vec![(0, -1), (1, -1)]), TxDelete(1, 0, Cond::Le(0, -3)), Commit(1), Sweep]);
     out.push(("extreme_values_hash_and_btree", wide, s));
+    // NULL in indexed columns: c0 nullable (hash + b-tree), c1 not; rows stored with an omitted / explicit NULL; updates
+    // NULL -> value and value -> NULL, delete by `= NULL`, an insert that leaves the nullable column out; a NULL for the
+    // column that refuses it fails as a whole; rollback and commit; every Eq / range answer (NULL included) is swept
+    let nul = Cfg { lock_secs: 30, tx_secs: 60, wide: false, nulls: true };
+    for (name, end) in [("null_values_indexed_rollback", Rollback(0)), ("null_values_indexed_commit", Commit(0))] {
+        let mut s = vec![CreateTableN(vec![0]), CreateIndex(0, 0), CreateBtree(0, 0), CreateBtree(0, 1),
+                         Insert(0, vec![OMITV, 1]), Insert(0, vec![NULLV, 2]), Insert(0, vec![3, 3]), Insert(0, vec![1, NULLV]), Insert(0, vec![1, OMITV]), Sweep];
+        s.extend([Begin(0), TxUpdate(0, 0, Cond::Id(1), vec![(0, 4)]), TxUpdate(0, 0, Cond::Id(3), vec![(0, NULLV)]),
+                  TxSelect(0, 0, Cond::Eq(0, NULLV)), TxSelect(0, 0, Cond::Ne(0, NULLV)), TxSelect(0, 0, Cond::Le(0, NULLV)), Sweep,
+                  TxDelete(0, 0, Cond::Eq(0, NULLV)), TxInsert(0, 0, vec![OMITV, 5]), TxInsert(0, 0, vec![NULLV, 0]), TxInsert(0, 0, vec![1, NULLV]),
+                  TxUpdate(0, 0, Cond::All, vec![(1, NULLV)]), TxUpdate(0, 0, Cond::and(Cond::Ne(0, NULLV), Cond::Ge(1, 0)), vec![(0, NULLV)]),
+                  TxUpdate(0, 0, Cond::Eq(0, NULLV), vec![(0, NULLV), (1, 2)]), Update(0, Cond::All, vec![(1, NULLV)]), Sweep, end, Sweep]);
+        out.push((name, nul, s));
+    }
     // both index kinds on the SAME column (hash c0 + b-tree c0 + b-tree c1)
     let mut s = base(true);
     s.extend([Begin(0), TxUpdate(0, 0, Cond::Id(1), vec![(0, 1)]), TxUpdate(0, 0, Cond::All, vec![(1, 2)]), Sweep, Rollback(0), Sweep]);
@@ -1654,7 +1760,7 @@ fn directed() -> Vec<(&'static str, Cfg, Vec<Op>)> {
     // cleanup_expired (lock 2 s / tx 3 s: A times out at 3.2 s while B's 1.1 s old locks are fresh); after every
     // statement the foreign-lock oracle requires B to still hold its rows; C = h2 and non-transactional statements on
     // B's rows must get a lock conflict; B's rollback puts back what B found; then C gets through.
-    let slow = Cfg { lock_secs: 2, tx_secs: 3, wide: false };
+    let slow = Cfg { lock_secs: 2, tx_secs: 3, wide: false, nulls: false };
     for (name, cfg, first_tick, end_a) in [
         ("takeover_old_holder_commits", short, 1100u64, vec![Commit(0)]),
         ("takeover_old_holder_rolls_back", short, 1100, vec![Rollback(0)]),
@@ -1743,7 +1849,7 @@ fn directed() -> Vec<(&'static str, Cfg, Vec<Op>)> {
 
 /// short timeout scripts: 2 transactions, writes, one or two ticks, sweeps
 fn gen_timeout_script(rng: &mut Rng) -> (Cfg, Vec<Op>) {
-    let cfg = if rng.chance(1, 3) { Cfg { lock_secs: 1, tx_secs: 1, wide: false } } else { Cfg { lock_secs: 1, tx_secs: 60, wide: false } };
+    let cfg = if rng.chance(1, 3) { Cfg { lock_secs: 1, tx_secs: 1, wide: false, nulls: false } } else { Cfg { lock_secs: 1, tx_secs: 60, wide: false, nulls: false } };
     let mut ops = vec![Op::CreateTable, Op::CreateIndex(0, 0), Op::CreateBtree(0, 1)];
     for _ in 0..3 {
         ops.push(Op::Insert(0, gen_vals(rng, P6)));
@@ -1785,7 +1891,7 @@ fn gen_timeout_script(rng: &mut Rng) -> (Cfg, Vec<Op>) {
 /// B and C end in random order
 fn gen_takeover_script(rng: &mut Rng) -> (Cfg, Vec<Op>) {
     let cleanup = rng.chance(1, 5);
-    let cfg = if cleanup { Cfg { lock_secs: 2, tx_secs: 3, wide: false } } else { Cfg { lock_secs: 1, tx_secs: 60, wide: false } };
+    let cfg = if cleanup { Cfg { lock_secs: 2, tx_secs: 3, wide: false, nulls: false } } else { Cfg { lock_secs: 1, tx_secs: 60, wide: false, nulls: false } };
     let mut ops = vec![Op::CreateTable, Op::CreateIndex(0, 0), Op::CreateBtree(0, 1)];
     for _ in 0..3 {
         ops.push(Op::Insert(0, gen_vals(rng, P6)));
@@ -1888,6 +1994,9 @@ fn absorb(rep: &mut Report, tally: &mut Tally, stream: &str, cfg: Cfg, ops: &[Op
     for (k, n) in &out.compared {
         rep.hit_n(&format!("compared:{k}"), *n);
     }
+    for (k, n) in &out.counts {
+        rep.hit_n(k, *n);
+    }
     for (s, input, imp, mdl) in out.disagreements {
         rep.disagree(&format!("{stream}.{s}"), input, &imp, &mdl);
     }
@@ -1911,7 +2020,7 @@ fn absorb(rep: &mut Report, tally: &mut Tally, stream: &str, cfg: Cfg, ops: &[Op
             exec_script(&script, cfg, None).violations.into_iter().find(|v| v.0 == class).map(|v| v.1).unwrap_or(what)
         };
         rep.violation(&class, &what2, json!({
-            "cfg": {"lock_timeout_secs": cfg.lock_secs, "transaction_timeout_secs": cfg.tx_secs, "wide_values": cfg.wide},
+            "cfg": {"lock_timeout_secs": cfg.lock_secs, "transaction_timeout_secs": cfg.tx_secs, "wide_values": cfg.wide, "nullable_columns": cfg.nulls},
             "script": script.iter().map(|o| o.show()).collect::<Vec<_>>(),
         }));
     }
@@ -1926,7 +2035,7 @@ fn main() {
     let mut model = Model::spawn(&args.driver);
     let mut tally = Tally { per_class: BTreeMap::new() };
     let root = Rng::new(args.seed);
-    let long = Cfg { lock_secs: 30, tx_secs: 60, wide: false };
+    let long = Cfg { lock_secs: 30, tx_secs: 60, wide: false, nulls: false };
 
     // 1. directed scenarios (the ones with real sleeps run concurrently on their own engines / model processes; the
     //    random sleeping scripts of streams 4 and 5 are started now as well and collected at the end)
@@ -1991,7 +2100,7 @@ fn main() {
 
     // 2. random interleavings, no DDL inside transactions
     let mut rng = root.fork("interleave");
-    let n = if args.thorough { 6000 } else { 450 };
+    let n = if args.thorough { 6000 } else { 400 };
     for i in 0..n {
         let len = rng.range(8, 34) as usize;
         let ops = gen_script(&mut rng, len, false, P6);
@@ -2003,7 +2112,7 @@ fn main() {
     }
     // 3. random interleavings with index DDL between the statements
     let mut rng = root.fork("interleave_ddl");
-    let n = if args.thorough { 4000 } else { 350 };
+    let n = if args.thorough { 4000 } else { 300 };
     for i in 0..n {
         let len = rng.range(8, 34) as usize;
         let ops = gen_script(&mut rng, len, true, P6);
@@ -2014,9 +2123,9 @@ fn main() {
         absorb(&mut rep, &mut tally, "interleave_ddl", long, &ops, out, true);
     }
     // 3b. the same with values outside 0..5: negative numbers, i64::MIN / i64::MAX
-    let wide = Cfg { lock_secs: 30, tx_secs: 60, wide: true };
+    let wide = Cfg { lock_secs: 30, tx_secs: 60, wide: true, nulls: false };
     let mut rng = root.fork("interleave_wide");
-    let n = if args.thorough { 1500 } else { 100 };
+    let n = if args.thorough { 1500 } else { 70 };
     for i in 0..n {
         let len = rng.range(8, 30) as usize;
         let ops = gen_script(&mut rng, len, i % 2 == 1, pool(wide));
@@ -2025,6 +2134,20 @@ fn main() {
             rep.sample(json!({"stream": "interleave_wide", "script": ops.iter().map(|o| o.show()).collect::<Vec<_>>()}));
         }
         absorb(&mut rep, &mut tally, "interleave_wide", wide, &ops, out, true);
+    }
+    // 3c. nullable columns: NULL stored explicitly or by omission, assigned and compared (`= NULL` through the hash
+    //     index, ranges skip NULL keys), NULL refused by the other columns; every second script with the wide values too
+    let mut rng = root.fork("interleave_nulls");
+    let n = if args.thorough { 2500 } else { 110 };
+    for i in 0..n {
+        let cfg = Cfg { lock_secs: 30, tx_secs: 60, wide: i % 2 == 1, nulls: true };
+        let len = rng.range(8, 30) as usize;
+        let ops = gen_script(&mut rng, len, i % 3 == 2, pool(cfg));
+        let out = exec_script(&ops, cfg, Some(&mut model));
+        if i < 1 {
+            rep.sample(json!({"stream": "interleave_nulls", "script": ops.iter().map(|o| o.show()).collect::<Vec<_>>()}));
+        }
+        absorb(&mut rep, &mut tally, "interleave_nulls", cfg, &ops, out, true);
     }
     // 4. lock / transaction timeouts, 5. lock takeover with the old holder ending first (real sleeps; started above)
     let mut outs = rnd_sleepers.join().expect("random sleepers panicked");
@@ -2048,7 +2171,9 @@ fn main() {
         "op:insert:table_not_found", "op:update:table_not_found", "op:update:column_not_found", "op:delete_rows:table_not_found",
         "tx_select_by_open_tx", "tx_select_by_finished_tx", "and_condition_served_by_hash_index", "and_condition_served_by_btree_index",
         "directed:compound_condition_lock_set", "directed:and_condition_through_index_rollback", "directed:tx_select_open_and_finished",
-        "directed:failed_statements_change_nothing", "directed:extreme_values_hash_and_btree", "op:insert:ok", "op:update:ok", "op:update:lock_conflict", "op:delete_rows:ok",
+        "directed:failed_statements_change_nothing", "directed:null_values_indexed_rollback", "directed:null_values_indexed_commit",
+        "op:update:bad_input", "op:tx_update:bad_input", "null_stored:omitted", "null_stored:explicit", "null_assigned_by_update",
+        "null_compared_in_condition", "directed:extreme_values_hash_and_btree", "op:insert:ok", "op:update:ok", "op:update:lock_conflict", "op:delete_rows:ok",
         "op:delete_rows:lock_conflict", "op:create_index:ok", "op:create_index:index_exists", "op:create_btree_index:ok",
         "op:create_btree_index:index_exists", "op:drop_index:ok", "op:drop_index:index_not_found", "op:drop_btree_index:ok",
         "op:drop_btree_index:index_not_found", "op:cleanup_expired_locks:ok", "op:cleanup_expired:ok", "op:lock_timeout:ok",
